@@ -366,6 +366,41 @@ func enumerateCNF(tier string, seed int64, certOnly bool, yield func(string, cor
 	if !famD3(d3len, func(f [][]int, n int) bool { return emit("D3", f, n, d3cfg) }) {
 		return
 	}
+	// LL: two long dirty clauses (every literal sequence of length 5 over 2 variables; 6 in thorough)
+	// followed by nothing or one unit: parse-time simplification code guarded by a length threshold, and
+	// state leaking from the simplification of one clause into the next
+	{
+		long := litSeqs(2, 5, 5)
+		if thorough {
+			long = litSeqs(2, 5, 6)
+		}
+		llcfg := []cfg{{"slice", 0, 0, 0}}
+		k := 0
+		for _, a := range long {
+			for _, b := range long {
+				for _, u := range [][]int{nil, {-1}, {-2}, {1}, {2}} {
+					f := [][]int{append([]int{}, a...), append([]int{}, b...)}
+					if u != nil {
+						f = append(f, append([]int{}, u...))
+					}
+					k++
+					c := llcfg
+					if k%11 == 0 && !certOnly {
+						c = []cfg{{"dimacs", 0, 0, 0}}
+					}
+					if certOnly && k%5 != 0 {
+						continue
+					}
+					if thorough && len(a)+len(b) == 12 && k%4 != 0 {
+						continue
+					}
+					if !emit("LL", f, 2, c) {
+						return
+					}
+				}
+			}
+		}
+	}
 	s3seq, s3multi := 3, 3
 	if thorough {
 		s3seq, s3multi = 4, 5
@@ -443,7 +478,7 @@ type c01 struct{}
 func (c01) ID() string    { return "C01" }
 func (c01) Level() string { return "exploration" }
 func (c01) Rule() string {
-	return "cases = every CNF of the families T2 (n=2, all literal sequences of length 0..3 as clauses, all clause sequences), S3, S4, L6 (watch movement), M (conflict-rich seeds and all one-edit neighbours), R (seeded catalogue of random 2/3-CNFs over 6..10 variables with all one-edit neighbours), R3 (seeded threshold 3-CNFs over 10..14 variables) x entry point (ParseSlice, ParseSliceNb with n and n+1 declared, ParseCNF) x learned-clause limit (default, reduce at 1 or 2 stored clauses, or tight: the limit always equals the number of stored clauses); each case is executed once per heuristic choice list (decision variable/polarity, restart now, reduce now) up to the case's deviation bound; every execution is judged against the truth table of the input as written. A case is non-trivial when some execution made a decision or met a conflict, or parse-time simplification decided it with at least one unit or duplicate/tautology removal (clauses present)."
+	return "cases = every CNF of the families T2 (n=2, all literal sequences of length 0..3 as clauses, all clause sequences), D3 (one dirty clause over 3 variables with units before/after), LL (every pair of literal sequences of length 5 over 2 variables as clauses, with no or one unit after), S3, S4, L6 (watch movement), M (conflict-rich seeds and all one-edit neighbours), R (seeded catalogue of random 2/3-CNFs over 6..10 variables with all one-edit neighbours), R3 (seeded threshold 3-CNFs over 10..14 variables) x entry point (ParseSlice, ParseSliceNb with n and n+1 declared, ParseCNF) x learned-clause limit (default, reduce at 1 or 2 stored clauses, or tight: the limit always equals the number of stored clauses); each case is executed once per heuristic choice list (decision variable/polarity, restart now, reduce now) up to the case's deviation bound; every execution is judged against the truth table of the input as written. A case is non-trivial when some execution made a decision or met a conflict, or parse-time simplification decided it with at least one unit or duplicate/tautology removal (clauses present)."
 }
 func (c01) Assumptions() []string {
 	return []string{
